@@ -247,7 +247,24 @@ def byte_sets(prog, fpath):
     sets = []
     lo = width = None
     other_cmp = False
-    for g in [f] + prog.closures_of(fpath):
+    # the classifier may be a predicate of its own (`s.bytes().any(is_html_special_byte)`): functions of the crate that the
+    # function calls or hands on as a value, two levels deep, belong to it when they take a byte
+    family = [f] + prog.closures_of(fpath)
+    for _ in range(2):
+        for g in list(family):
+            names = [c.resolved or c.path for c in g.calls()]
+            for c in g.calls():
+                for a in c.args:
+                    cst = a.get("c")
+                    if cst is not None and "fn" in cst:
+                        names.append(norm_path(cst["fn"]))
+            for nm in names:
+                h = prog.fns.get(nm or "")
+                if h is not None and h.crate == f.crate and h not in family and not h.is_pub and any(
+                        h.locals[l].get("s") in ("u8", "&u8") for l in range(1, h.argc + 1)):
+                    family.append(h)
+                    family += [x for x in prog.closures_of(h.path) if x not in family]
+    for g in family:
         for bb in sorted(g.reachable):
             t = g.term(bb)
             if t["k"] == "switch" and t["ty"] == "u8" and len(t["arms"]) >= 3:
